@@ -226,12 +226,23 @@ def _worker_init(prop):
 
 def eval_case(lane, client, case):
     """Run one case on the implementation and on the model; return a result record."""
+    from harness import gen as _gen
+    _gen.take_failures()
     try:
         r = lane.run_case(case)
     except MachineryError:
         raise
     except Exception as e:  # a harness crash on a case is reported as machinery trouble, with the case
+        built = _gen.take_failures()
+        if built:
+            # the shared builders saw the graph go wrong while it was being built (see harness/gen.py): that, not the crash
+            # it caused further on, is the observation
+            return {'case': case, 'diffs': [], 'ndiffs': 0, 'oracle': ['while building the graph: ' + built[0]],
+                    'nontrivial': False, 'key': '', 'tags': ['build-failure'], 'nlines': 0}
         return {'case': case, 'crash': ''.join(traceback.format_exception(type(e), e, e.__traceback__))[-2000:]}
+    built = _gen.take_failures()
+    if built:
+        r = dict(r, oracle=list(r.get('oracle', [])) + ['while building the graph: ' + built[0]])
     lines = r.get('lines', [])
     impl = r.get('impl', [])
     model = client.ask(lines) if lines else []
